@@ -176,8 +176,13 @@ func FromRoot(root *ggql.Root, directiveNames []string) (*Schema, error) {
 		s.Defs = append(s.Defs, d)
 	}
 	for _, dn := range directiveNames {
-		t := root.GetType(dn)
-		dt, _ := t.(*ggql.Directive)
+		// by the directive table, not GetType: a type of the same name would be found first
+		var dt *ggql.Directive
+		for _, t := range root.Directives() {
+			if x, ok := t.(*ggql.Directive); ok && x.Name() == dn {
+				dt = x
+			}
+		}
 		if dt == nil {
 			continue
 		}
